@@ -5,9 +5,12 @@
     start [b] · cmninfo [] · chinfo [c] · set single [0,c,v] · all [2,0,v] · bulk 1 :: 0 :: vs
 -/
 import NxsModel.Requests
+import NxsModel.ReqSession
 import NxsModel.Spec.Wire
 import NxsModel.Lemmas.Serial
 import NxsModel.Lemmas.Requests
+import NxsModel.Pad
+import NxsModel.Dispatch
 namespace Nxs.C05
 open Nxs Nxs.Spec Nxs.Requests
 
@@ -128,6 +131,203 @@ theorem div_single_agrees (n c v : Nat) (cur : List Int) (hcur : cur.length = n)
     ∃ payload, frameDiv (.single c v) n = .ok (wire 7 payload) ∧
       frameDivDecode payload n cur = .ok (cur.set c (v : Int)) := 
   ⟨_, req_bytes_div_single n c v hc hn hv, dev_decode_div_single n c v cur hcur hc hn hv⟩
+
+/-! ### from the client's request BYTES through the frame layer and the dispatcher to the decoded value
+
+  The `dev_decode_*` / `*_forms_agree` theorems above speak about the bare payload.  Here the whole
+  device-side path is composed: the bytes the builder returned, written through the interface with ANY
+  write padding `pad` (`Pad.dataAlign pad`, C17; `pad = 0` is the unpadded write), are handed to the
+  device-side dispatcher `Dispatch.recvHandle` (`ParseRecv.recv_handle`, C02: header search, length and
+  CRC validation, callback table); it fires exactly the matching callback (0 cmninfo · 1 chinfo · 2 enable ·
+  3 div · 4 start) and the decoder that callback runs on the payload it was given returns what the caller
+  asked for.  The common-info request has an empty payload (nothing to decode); for the channel-info
+  request the device side has NO decoder function — the callback reads the channel id as payload byte 0
+  (`intf/dummy.py::_chinfo_cb`: `data[0]`), so the statement is about that byte. -/
+
+private theorem specVec_len (vs : List Nat) (h : vs ≠ []) :
+    (specVec vs).length = 3 ∨ (specVec vs).length = vs.length + 2 := by
+  cases vs with
+  | nil => exact absurd rfl h
+  | cons v vs =>
+    have hsv : specVec (v :: vs) = if allSame (v :: vs) then specAll v else specBulk (v :: vs) := rfl
+    rw [hsv]
+    split
+    · left; rfl
+    · right; simp [specBulk]
+
+private theorem en_vec_decodes (n : Nat) (vs cur : List Bool) (hl : vs.length = n) (h1 : 1 ≤ n) :
+    frameEnableDecode (specVec (vs.map b2n)) n cur = .ok vs := by
+  match vs, hl with
+  | [], hl => simp at hl; omega
+  | v :: vs, hl =>
+    have hsv : specVec ((v :: vs).map b2n) = if allSame ((v :: vs).map b2n) then specAll (b2n v)
+        else specBulk ((v :: vs).map b2n) := rfl
+    rw [hsv, allSame_map b2n (fun a b h => by cases a <;> cases b <;> first | rfl | cases h)]
+    by_cases hs : allSame (v :: vs) = true
+    · rw [if_pos hs, dev_decode_en_all, allSame_eq_replicate v vs hs, ← hl]; rfl
+    · rw [if_neg hs]; exact dev_decode_en_bulk n (v :: vs) cur hl
+
+private theorem div_vec_decodes (n : Nat) (vs : List Nat) (cur : List Int) (hl : vs.length = n) (h1 : 1 ≤ n)
+    (hv : ∀ v ∈ vs, v ≤ 255) : frameDivDecode (specVec vs) n cur = .ok (vs.map Int.ofNat) := by
+  match vs, hl, hv with
+  | [], hl, _ => simp at hl; omega
+  | v :: vs, hl, hv =>
+    have hsv : specVec (v :: vs) = if allSame (v :: vs) then specAll v else specBulk (v :: vs) := rfl
+    by_cases hs : allSame (v :: vs) = true
+    · rw [hsv, if_pos hs, dev_decode_div_all n v cur (hv v (by simp)), allSame_eq_replicate v vs hs, ← hl]
+      simp
+    · rw [hsv, if_neg hs]; exact dev_decode_div_bulk n (v :: vs) cur hl hv
+
+theorem request_reaches_decoder_start (pad : Nat) (b : Bool) :
+    ∃ f p, frameStart b = .ok f ∧ Dispatch.recvHandle (Pad.dataAlign pad f) = .fired 4 p ∧
+      frameStartDecode p = .ok b :=
+  ⟨_, _, req_bytes_start b, req_recvHandle_aligned pad 5 4 _ (by simp) (by omega) (req_cb_start _),
+    dev_decode_start b⟩
+
+theorem request_reaches_decoder_cmninfo (pad : Nat) :
+    ∃ f, frameCmninfo = .ok f ∧ Dispatch.recvHandle (Pad.dataAlign pad f) = .fired 0 [] :=
+  ⟨_, req_bytes_cmninfo, req_recvHandle_aligned pad 2 0 _ (by simp) (by omega) req_cb_cmninfo⟩
+
+theorem request_reaches_decoder_chinfo (pad c : Nat) (hc : c ≤ 255) :
+    ∃ f x, frameChinfo c = .ok f ∧ Dispatch.recvHandle (Pad.dataAlign pad f) = .fired 1 [x] ∧ x.toNat = c :=
+  ⟨_, _, req_bytes_chinfo c hc, req_recvHandle_aligned pad 3 1 _ (by simp) (by omega) (req_cb_chinfo _),
+    byte_toNat c hc⟩
+
+theorem request_reaches_decoder_en_single (pad n c : Nat) (v : Bool) (cur : List Bool) (hcur : cur.length = n)
+    (hc : c < n) (hn : n ≤ 255) :
+    ∃ f p, frameEnable (.single c v) n = .ok f ∧ Dispatch.recvHandle (Pad.dataAlign pad f) = .fired 2 p ∧
+      frameEnableDecode p n cur = .ok (cur.set c v) :=
+  ⟨_, _, req_bytes_en_single n c v hc hn,
+    req_recvHandle_aligned pad 6 2 _ (by simp [specSingle]) (by omega) (req_cb_enable _ (by simp [specSingle])),
+    dev_decode_en_single n c v cur hcur hc hn⟩
+
+theorem request_reaches_decoder_en_vec (pad n : Nat) (vs cur : List Bool) (hl : vs.length = n) (h1 : 1 ≤ n)
+    (hn : n ≤ 255) :
+    ∃ f p, frameEnable (.vec vs) n = .ok f ∧ Dispatch.recvHandle (Pad.dataAlign pad f) = .fired 2 p ∧
+      frameEnableDecode p n cur = .ok vs := by
+  have hne : vs.map b2n ≠ [] := by intro h; rw [List.map_eq_nil_iff] at h; subst h; simp at hl; omega
+  have hlen := specVec_len (vs.map b2n) hne
+  rw [List.length_map] at hlen
+  refine ⟨_, _, req_bytes_en_vec n vs hl h1 hn,
+    req_recvHandle_aligned pad 6 2 _ (by omega) (by omega) (req_cb_enable _ ?_), en_vec_decodes n vs cur hl h1⟩
+  intro h; rw [h] at hlen; simp at hlen
+
+theorem request_reaches_decoder_div_single (pad n c v : Nat) (cur : List Int) (hcur : cur.length = n)
+    (hc : c < n) (hn : n ≤ 255) (hv : v ≤ 255) :
+    ∃ f p, frameDiv (.single c v) n = .ok f ∧ Dispatch.recvHandle (Pad.dataAlign pad f) = .fired 3 p ∧
+      frameDivDecode p n cur = .ok (cur.set c (v : Int)) :=
+  ⟨_, _, req_bytes_div_single n c v hc hn hv,
+    req_recvHandle_aligned pad 7 3 _ (by simp [specSingle]) (by omega) (req_cb_div _ (by simp [specSingle])),
+    dev_decode_div_single n c v cur hcur hc hn hv⟩
+
+theorem request_reaches_decoder_div_vec (pad n : Nat) (vs : List Nat) (cur : List Int) (hl : vs.length = n)
+    (h1 : 1 ≤ n) (hn : n ≤ 255) (hv : ∀ v ∈ vs, v ≤ 255) :
+    ∃ f p, frameDiv (.vec (vs.map Int.ofNat)) n = .ok f ∧
+      Dispatch.recvHandle (Pad.dataAlign pad f) = .fired 3 p ∧
+      frameDivDecode p n cur = .ok (vs.map Int.ofNat) := by
+  have hne : vs ≠ [] := by intro h; subst h; simp at hl; omega
+  have hlen := specVec_len vs hne
+  refine ⟨_, _, req_bytes_div_vec n vs hl h1 hn hv,
+    req_recvHandle_aligned pad 7 3 _ (by omega) (by omega) (req_cb_div _ ?_), div_vec_decodes n vs cur hl h1 hv⟩
+  intro h; rw [h] at hlen; simp at hlen
+
+/-! ### histories: one long-lived device, any sequence of requests in any mixture of forms
+
+  `Requests.devRecv` is the device side as a whole (dispatcher → callback → decoder against the device's
+  CURRENT vectors → per-channel writes, as `DummyDev._enable_cb/_div_cb` do on their one `Device` object).
+  `Requests.session` lets the client build each request and the device receive it on that one state.  Whatever the
+  sequence (single → bulk → single, single → all → single, …), after every request the device state is the
+  state the caller asked for. -/
+
+/-- the property's quantifier: channel id below the channel count, 8-bit dividers, full vectors -/
+def Valid (n : Nat) : Ask → Prop
+  | .enOne c _ => c < n
+  | .enVec vs => vs.length = n
+  | .divOne c v => c < n ∧ v ≤ 255
+  | .divVec vs => vs.length = n ∧ ∀ v ∈ vs, v ≤ 255
+
+/-- the state the caller intends (hand-written) -/
+def intend (s : DevSt) : Ask → DevSt
+  | .enOne c v => { s with en := s.en.set c v }
+  | .enVec vs => { s with en := vs }
+  | .divOne c v => { s with div := s.div.set c (v : Int) }
+  | .divVec vs => { s with div := vs.map Int.ofNat }
+
+/-- one request: the device's receive path ends in exactly the intended state, no error -/
+theorem ask_reaches_device (n pad : Nat) (h1 : 1 ≤ n) (hn : n ≤ 255) (s : DevSt) (hen : s.en.length = n)
+    (hdiv : s.div.length = n) (a : Ask) (ha : Valid n a) :
+    ∃ f cb, a.build n = .ok f ∧ devRecv n s (Pad.dataAlign pad f) = (intend s a, .ok (some cb)) := by
+  cases a with
+  | enOne c v =>
+    obtain ⟨f, p, hb, hd, hdec⟩ := request_reaches_decoder_en_single pad n c v s.en hen ha hn
+    refine ⟨f, 2, hb, ?_⟩
+    simp only [devRecv, hd, devApply, hdec, if_pos, Except.map, intend]
+    rw [storeVec_full _ _ (by simp)]
+  | enVec vs =>
+    obtain ⟨f, p, hb, hd, hdec⟩ := request_reaches_decoder_en_vec pad n vs s.en ha h1 hn
+    refine ⟨f, 2, hb, ?_⟩
+    simp only [devRecv, hd, devApply, hdec, if_pos, Except.map, intend]
+    rw [storeVec_full _ _ (by have : vs.length = n := ha; omega)]
+  | divOne c v =>
+    obtain ⟨f, p, hb, hd, hdec⟩ := request_reaches_decoder_div_single pad n c v s.div hdiv ha.1 hn ha.2
+    refine ⟨f, 3, hb, ?_⟩
+    simp only [devRecv, hd, devApply, hdec, Except.map, intend]
+    rw [storeVec_full _ _ (by simp)]
+    rfl
+  | divVec vs =>
+    obtain ⟨f, p, hb, hd, hdec⟩ := request_reaches_decoder_div_vec pad n vs s.div ha.1 h1 hn ha.2
+    refine ⟨f, 3, hb, ?_⟩
+    simp only [devRecv, hd, devApply, hdec, Except.map, intend]
+    rw [storeVec_full _ _ (by have : vs.length = n := ha.1; simp; omega)]
+    rfl
+
+/-- the intended state keeps the vector lengths -/
+theorem intend_lengths (n : Nat) (s : DevSt) (hen : s.en.length = n) (hdiv : s.div.length = n) (a : Ask)
+    (ha : Valid n a) : (intend s a).en.length = n ∧ (intend s a).div.length = n := by
+  cases a with
+  | enOne c v => simp [intend, hen, hdiv]
+  | enVec vs => exact ⟨ha, hdiv⟩
+  | divOne c v => simp [intend, hen, hdiv]
+  | divVec vs => exact ⟨hen, by simp [intend, ha.1]⟩
+
+/-- any history of requests on one device object: the device ends in the state obtained by applying the
+    callers' intentions one after the other — whichever compact form each request travelled in -/
+theorem history_agrees (n pad : Nat) (h1 : 1 ≤ n) (hn : n ≤ 255) (asks : List Ask) :
+    ∀ (s : DevSt), s.en.length = n → s.div.length = n → (∀ a ∈ asks, Valid n a) →
+      session n pad s asks = .ok (asks.foldl intend s) := by
+  induction asks with
+  | nil => intro s _ _ _; rfl
+  | cons a as ih =>
+    intro s hen hdiv hv
+    obtain ⟨f, cb, hb, hr⟩ := ask_reaches_device n pad h1 hn s hen hdiv a (hv a (by simp))
+    obtain ⟨hen', hdiv'⟩ := intend_lengths n s hen hdiv a (hv a (by simp))
+    simp only [session, hb, ok_bind, hr, List.foldl_cons]
+    exact ih _ hen' hdiv' (fun b hb' => hv b (by simp [hb']))
+
+/-- non-vacuity: the hypotheses of the `request_reaches_decoder_*` theorems at concrete points (upper half of the
+    8-bit fields, write padding, a vector of non-zero unequal dividers) -/
+example := request_reaches_decoder_chinfo 16 254 (by omega)
+example := request_reaches_decoder_en_single 4 255 254 true (List.replicate 255 false) List.length_replicate (by omega) (by omega)
+example := request_reaches_decoder_en_vec 4 3 [true, false, true] [false, false, false] rfl (by omega) (by omega)
+example := request_reaches_decoder_div_single 16 255 200 255 (List.replicate 255 0) List.length_replicate (by omega) (by omega)
+  (by omega)
+example := request_reaches_decoder_div_vec 0 2 [7, 200] [0, 0] rfl (by omega) (by omega) (by decide)
+example : session 2 0 ⟨[false, false], [0, 0]⟩ [.divVec [7, 200], .enOne 1 true] = .ok ⟨[false, true], [7, 200]⟩ :=
+  history_agrees 2 0 (by omega) (by omega) _ _ rfl rfl (by
+    intro a ha
+    simp only [List.mem_cons, List.not_mem_nil, or_false] at ha
+    rcases ha with rfl | rfl
+    · exact ⟨rfl, by decide⟩
+    · exact (by decide : 1 < 2))
+
+/-- non-vacuity -/
+example : Valid 3 (.divVec [200, 200, 7]) ∧ Valid 3 (.enOne 2 true) :=
+  ⟨⟨rfl, by decide⟩, (by decide : 2 < 3)⟩
+example : session 3 4 ⟨[true, false, false], [0, 9, 0]⟩
+    [.enOne 1 true, .divVec [5, 6, 200], .enVec [false, true, true], .divOne 0 255, .enVec [true, true, true],
+      .enOne 0 false] = .ok ⟨[false, true, true], [255, 6, 200]⟩ := by decide +kernel
+example : (Requests.frameEnable (.vec [true, false, true]) 3).map
+    (fun f => Dispatch.recvHandle (Pad.dataAlign 4 f)) = .ok (.fired 2 [1, 0, 1, 0, 1]) := by decide +kernel
 
 /-- non-vacuity -/
 example : frameDiv (.single 3 200) 8 = .ok (wire 7 [0, 3, 200]) := by decide +kernel
